@@ -84,6 +84,17 @@ pub fn trade_text_pre2023(sec: &str, td: i64, sd: i64, shares: Decimal, price: D
     t
 }
 
+/// the same confirmation printed without its FEE line (charges = 1) or without the COMMISSION entry
+/// (charges = 2): both lines are optional in that layout
+pub fn trade_text_pre2023_charges(sec: &str, td: i64, sd: i64, shares: Decimal, price: Decimal, commission: Decimal, fee: Decimal, charges: u64) -> String {
+    let t = trade_text_pre2023(sec, td, sd, shares, price, commission, fee);
+    match charges {
+        1 => sub(&t, r"(?m)^FEE \$\d+\.\d+\n", ""),
+        2 => sub(&t, r" COMMISSION \$\d+\.\d+\n", " "),
+        _ => t,
+    }
+}
+
 /// scenario: {"benefits":[{day, sold, sprice{m,d}}], "trades":[{sec, td, sd, shares, price{m,d}}], "layout": 0|1, "order": 0|1}
 pub fn etrade_record(case: &Value, n: u64, scratch: &Path) -> Value {
     let layout = case["layout"].as_u64().unwrap_or(n % 2);
@@ -121,7 +132,14 @@ pub fn etrade_record(case: &Value, n: u64, scratch: &Path) -> Value {
         let price = rat(&t["price"]);
         let (commission, fee) = if sec == "BAR" { (Decimal::ZERO, Decimal::ZERO) } else { (Decimal::new(495, 2), Decimal::new(5, 2)) };
         let name = format!("m_trade_{}.txt", if order == 0 { i } else { 9 - i });
-        let text = if layout == 0 { trade_text_post2023(sec, td, sd, shares, price, commission, fee) } else { trade_text_pre2023(sec, td, sd, shares, price, commission, fee) };
+        // in the pre-2023 layout the COMMISSION entry and the FEE line are each optional
+        let charges = if layout == 0 { 0 } else { (n + i as u64) % 3 };
+        let (commission, fee) = match charges {
+            1 => (commission, Decimal::ZERO),
+            2 => (Decimal::ZERO, fee),
+            _ => (commission, fee),
+        };
+        let text = if layout == 0 { trade_text_post2023(sec, td, sd, shares, price, commission, fee) } else { trade_text_pre2023_charges(sec, td, sd, shares, price, if charges == 2 { Decimal::new(495, 2) } else { commission }, if charges == 1 { Decimal::new(5, 2) } else { fee }, charges) };
         std::fs::write(dir.join(&name), text).unwrap();
         files.push(dir.join(&name).to_string_lossy().to_string());
         trades.push(json!({"sec": sec, "td": td, "sd": sd, "shares": dj(&shares), "price": dj(&price), "comm": dj(&(commission + fee))}));
